@@ -39,8 +39,10 @@ ASSUMPTIONS = [
     'the engine reads cells only through _evaluate/_evaluate_range (the trace wraps exactly these); the value fetch '
     'for a formula that EVALUATES TO an address (OFFSET/INDIRECT at top level, excelcompiler.py:846) bypasses them '
     'and is outside the written references',
-    'Python tokenize is modelled by the token list (diffed on every case); sheet names are ASCII without quote, '
-    'backslash, colon or exclamation mark',
+    'Python tokenize is modelled by the token list (diffed on every case, incl. sheet titles over the alphabet Excel '
+    'allows in quoted names); the emitter does not escape the address text: a title holding a double quote does not '
+    'compile (no reads), `!` in a title is the C11 finding sheet.bang, `$` is stripped from the title and _R_/_C_ '
+    'rewritten under reference operators (both code-following, not governed)',
     'under a reference operator / ROW / COLUMN the code rewrites _R_ / _C_ textually, also inside the address literal: '
     '`written` requires the address text to be a fixed point of that replacement (sheet names without _R_ / _C_); '
     'with such a sheet name declared precedents and reads are both rewritten to the same other sheet',
@@ -50,7 +52,7 @@ ASSUMPTIONS = [
 ]
 TRUSTED = ['modelled, not verified: Python tokenize, openpyxl tokenizer / defined names / worksheet access, networkx']
 REQUIRED_BUCKETS = ['f:plain', 'f:abs', 'f:sheet', 'f:range', 'f:multicolon', 'f:unbounded', 'f:name', 'f:multiarea',
-                    'f:intersection', 'f:union', 'f:rowcol', 'f:computed', 'w', 'h', 'h:failed-build']
+                    'f:intersection', 'f:union', 'f:rowcol', 'f:computed', 'f:sheetname', 'w', 'h', 'h:failed-build', 'h:degenerate']
 EXHAUSTIVE = False
 
 SHEETS = ['Sheet1', 'Sheet2', 'Sh 2']
@@ -258,11 +260,49 @@ def env_of(rng):
     return [rng.randrange(len(POOL)) for _ in range(3 * len(COLS) * NROWS)]
 
 
-def fcase(tree, env, cell=(5, 6), sheet='Sheet1', tag=None):
+def fcase(tree, env, cell=(5, 6), sheet='Sheet1', tag=None, xs=None):
     c = {'k': 'f', 'tree': tree, 'env': env, 'cell': list(cell), 'sheet': sheet}
     if tag:
         c['tag'] = tag
+    if xs is not None:
+        c['xs'] = xs          # an extra worksheet with this (exotic) title, filled like Sheet2
     return c
+
+
+# sheet titles over the alphabet Excel allows in quoted names (openpyxl refuses / \ ? * [ ] :)
+XSHEETS = ['Costs (2)', 'R&D', "It's", "''q", 'Ünï ß', 'Лист1', '123', '2024', 'A1', 'XFD1', 'R1C1', 'TRUE', 'a#b',
+           'a,b', 'x;y', 'a=b', '{x}', 'a%b', 'a+b', 'a@b', 'a^b', 'a~b', 'a.b-c', 'a<b>c', 'New\xa0Sheet', 'a-1',
+           '(x)', '#REF', "o'c l", 'sum(1)']
+# titles the emitter is known to mangle (C02/C11 territory, listed in the report): the address text is rewritten
+# (`$` dropped, `_R_`/`_C_` -> `_REF_` under reference operators) or the literal is broken (`"`); only plain references
+# are generated for them, and they are code-following (not governed)
+QUIRK_SHEETS = ['_R_', 'x_C_y']
+
+
+def q(name):
+    return "'" + name.replace("'", "''") + "'"
+
+
+def xsheet_cases(env, names, thorough):
+    for nm in names:
+        p = q(nm) + '!'
+        forms = [R(p + 'A1'), B('add', R(p + '$B$2'), NUM(1)), F('SUM', R(p + 'A1:B2')), F('SUM', R(p + 'A1:B2:C3')),
+                 F('SUM', R(p + 'A:A')), F('SUM', R(p + '2:2')),
+                 F('SUM', B('space', R(p + 'A1:B2'), R(p + 'B2:C3'))),
+                 F('SUM', B('space', R(p + 'B:C'), R(p + '2:3'))),
+                 F('ROW', R(p + 'B3')), F('COLUMN', B('space', R(p + 'A1:B2'), R(p + 'B2:C3'))),
+                 F('SUM', B('comma', R(p + 'A1'), R(p + 'B1:B2'))),
+                 F('IF', B('gt', R(p + 'A1'), NUM(1)), R(p + 'B1'), R('Sheet1!A1'))]
+        for t in forms:
+            yield fcase(t, env, xs=nm)
+        # the formula lives ON the exotic sheet: unqualified references, ROW() of its own cell
+        for t in (F('SUM', R('A1:B2')), B('add', R('$A$1'), F('ROW')), F('SUM', B('space', R('A1:B2'), R('B2:C3'))),
+                  F('SUM', R('A:A'))) if thorough else (B('add', R('$A$1'), F('ROW')), F('SUM', R('A1:B2'))):
+            yield fcase(t, env, cell=(5, 6), sheet=nm, xs=nm)
+    for nm in QUIRK_SHEETS:
+        p = q(nm) + '!'
+        for t in (R(p + 'A1'), F('SUM', R(p + 'A1:B2')), F('SUM', R(p + 'A:A'))):
+            yield fcase(t, env, xs=nm)
 
 
 def cases(tier, rng):
@@ -331,6 +371,9 @@ def cases(tier, rng):
             yield fcase(F('SUM', R(ref)), env0, cell=cell, sheet=sheet)
         yield fcase(F('SUM', B('space', R('A1:B2'), R('B2:C3'))), env0, cell=cell, sheet=sheet)
         yield fcase(B('add', F('ROW'), F('COLUMN', R('B2'))), env0, cell=cell, sheet=sheet)
+    # --- sheet titles over the alphabet Excel allows in quoted names, in every reference form
+    for c in xsheet_cases(env0, XSHEETS, thorough):
+        yield c
     # --- random trees
     n = 2500 if thorough else 350
     for i in range(n):
@@ -343,6 +386,8 @@ def cases(tier, rng):
         yield t
     # --- construction histories (orders of building one range under several spellings, builds failing part-way)
     for t in hist_fixed():
+        yield t
+    for t in hist_degenerate(thorough):
         yield t
     for i in range(400 if thorough else 60):
         yield hist_random(rng)
@@ -418,6 +463,8 @@ def make_wb(cells, names=None):
         sheets[s].title = s
     for addr, v in cells.items():
         sheet, coord = addr.rsplit('!', 1)
+        if sheet not in sheets:
+            sheets[sheet] = wb.create_sheet(sheet)
         sheets[sheet][coord] = v
     for n, dests in (names or {}).items():
         text = ','.join(("'%s'" % ws if ' ' in ws else ws) + '!' + alias for alias, ws in dests)
@@ -477,6 +524,11 @@ def graph_oracle(sp, tracer, skip_reader=None):
     from pycel.excelcompiler import _CellRange
     fails = []
     g = sp.dep_graph
+    for n in g.nodes:
+        if sp.cell_map.get(n.address.address) is not n:
+            fails.append(f'dep_graph holds a node for {n.address.address} that is not the object in cell_map '
+                         f'(edges of the replaced object are orphaned)')
+            break
     by_reader = {}
     for reader, kind, addr in tracer.reads:
         by_reader.setdefault(reader, []).append((kind, addr))
@@ -582,6 +634,10 @@ def run_f(c):
     col, row = c['cell']
     home = AddressCell((col, row, col, row), sheet=c['sheet']).address
     cells = grid_cells(c['env'])
+    if c.get('xs'):
+        for k, v in list(cells.items()):
+            if k.startswith('Sheet2!') and not (isinstance(v, str) and v.startswith('=')):
+                cells[c['xs'] + '!' + k.split('!', 1)[1]] = v
     cells[home] = '=' + render(c['tree'])
     sp, tr = compiler(cells, NAMES)
     exc = ''
@@ -764,6 +820,42 @@ def hist_fixed():
     return out
 
 
+def hist_degenerate(thorough):
+    """sheets whose used area is one cell / one column / one row, so that an unbounded reference bounds to a single
+    cell or to the very range another formula names; both build orders; exotic titles of the data sheet"""
+    out = []
+    areas = {'cell': {'A1': 4}, 'col': {'A1': 4, 'A2': 5, 'A3': 6}, 'row': {'A1': 4, 'B1': 5, 'C1': 6},
+             'cellB2': {'B2': 4}}
+    titles = ['Data', 'Costs (2)', 'R&D', "It's", '123'] if thorough else ['Data', 'Costs (2)', "It's"]
+    for title in titles:
+        p = (q(title) if title != 'Data' else 'Data') + '!'
+        for kind, area in areas.items():
+            first = sorted(area)[0]
+            direct = [f'={p}{first}*2', f'=SUM({p}{sorted(area)[0]}:{sorted(area)[-1]})', f'={p}${first[0]}${first[1:]}+0']
+            unb = [f'=SUM({p}A:A)', f'=SUM({p}1:1)', f'=SUM({p}A:C)', f'=SUM({p}A:A {p}1:1)', f'=SUM({p}B:B)+SUM({p}2:2)']
+            for d in direct:
+                for u in unb:
+                    for order in (('B1', 'C1'), ('C1', 'B1')):
+                        cells = {f'{title}!{k}': v for k, v in area.items()}
+                        cells['Calc!B1'] = d
+                        cells['Calc!C1'] = u
+                        cells['Calc!D1'] = '=B1+C1'
+                        steps = [['ev', f'Calc!{order[0]}'], ['ev', f'Calc!{order[1]}'],
+                                 ['set', f'{title}!{first}', 40], ['ev', 'Calc!C1'], ['ev', 'Calc!B1'], ['ev', 'Calc!D1'],
+                                 ['set', f'{title}!{first}', 7], ['ev', 'Calc!D1']]
+                        out.append({'k': 'h', 'deg': kind, 'cells': cells, 'steps': steps})
+            # the unbounded address evaluated directly, before / after the formulas
+            cells = {f'{title}!{k}': v for k, v in area.items()}
+            cells['Calc!B1'] = direct[0]
+            cells['Calc!C1'] = unb[0]
+            for steps in ([['ev', f'{title}!A:A'], ['ev', 'Calc!B1'], ['ev', 'Calc!C1']],
+                          [['ev', 'Calc!B1'], ['ev', f'{title}!A:A'], ['ev', 'Calc!C1']],
+                          [['ev', 'Calc!C1'], ['ev', f'{title}!1:1'], ['ev', 'Calc!B1']]):
+                out.append({'k': 'h', 'deg': kind, 'cells': cells, 'steps': steps +
+                            [['set', f'{title}!{first}', 40], ['ev', 'Calc!B1'], ['ev', 'Calc!C1']]})
+    return out
+
+
 def hist_random(rng):
     n = rng.randint(5, 9)
     c = {'k': 'w', 'seed': rng.randrange(10 ** 9), 'n': n}
@@ -790,7 +882,14 @@ def hist_random(rng):
             steps.append(['ev', rng.choice([f'{a}:{b.split("!")[1]}', f'Sheet1!{rng.choice("AB")}:{rng.choice("AB")}'])])
         else:
             steps.append(['set', rng.choice(values), rng.choice([11, 23, 0, 'q'])])
-    return {'k': 'h', 'cells': cells, 'steps': [st for st in steps if not (st[0] == 'ev' and _reversed(st[1].split('!')[1]))]}
+    steps = [st for st in steps if not (st[0] == 'ev' and _reversed(st[1].split('!')[1]))]
+    if rng.random() < 0.4:
+        # the same workbook on a sheet with an exotic title (formulas are unqualified, addresses carry the title)
+        title = rng.choice(XSHEETS)
+        ren = lambda a: title + '!' + a.split('!', 1)[1]    # noqa
+        cells = {ren(a): (v.replace('Sheet1!', q(title) + '!') if isinstance(v, str) else v) for a, v in cells.items()}
+        steps = [[st[0], ([ren(a) for a in st[1]] if isinstance(st[1], list) else ren(st[1]))] + st[2:] for st in steps]
+    return {'k': 'h', 'cells': cells, 'steps': steps}
 
 
 def structural_oracle(sp, tracer):
@@ -844,9 +943,14 @@ def run_h(c):
         for f in graph_oracle(sp, tr)[:2] + structural_oracle(sp, tr)[:2]:
             fails.append(where + f)
         # stale-value oracle: every target that evaluated so far agrees with a fresh compile of the current inputs
-        if good:
+        targets = list(good)
+        for a in sorted(tr.done):
+            n = sp.cell_map.get(a)
+            if n is not None and not n.address.is_range and a not in targets:
+                targets.append(a)
+        if targets:
             spf, _ = compiler(current)
-            for a in good:
+            for a in targets:
                 try:
                     vf = spf.evaluate(a)
                 except Exception:   # noqa
@@ -949,6 +1053,8 @@ def governed(c):
     # speak about (computed references) are code-following.
     if c['k'] in ('w', 'h'):
         return True
+    if c.get('xs') in QUIRK_SHEETS:
+        return False
     return not any(n[0] == 'f' and n[1].lower() in ('offset', 'indirect', 'subtotal') or
                    (n[0] == 'b' and n[1] == 'colon') for n in nodes(c['tree']))
 
@@ -987,12 +1093,16 @@ def nontrivial(c):
 
 
 def bucket(c):
+    if c['k'] == 'h' and c.get('deg'):
+        return 'h:degenerate'
     if c['k'] == 'h':
         return 'h:failed-build' if any(isinstance(v, str) and v in BROKEN for v in c['cells'].values()) else 'h'
     if c['k'] == 'w':
         return 'w'
     t = c['tree']
     ns = list(nodes(t))
+    if c.get('xs'):
+        return 'f:sheetname'
     if any(n[0] == 'f' and n[1].lower() in ('offset', 'indirect', 'subtotal') or (n[0] == 'b' and n[1] == 'colon')
            for n in ns):
         return 'f:computed'
